@@ -101,6 +101,8 @@ fn skew_calls(g: &mut dyn DynGen, n: u64, k: u64) -> Result<(), SutFail> {
             4 => Call::Fill(4),
             5 => Call::Fill(3),
             6 => Call::Fill(0),
+            8 => Call::Fill(72),
+            9 => Call::Fill(200),
             _ => Call::Fill(16),
         };
         super::c05::do_call(g, c)?;
@@ -117,6 +119,8 @@ fn words32(n: u64, k: u64) -> u64 {
         4 => 1,
         5 => 1,
         6 => 0,
+        8 => 18,
+        9 => 50,
         _ => 4,
     }
 }
@@ -184,7 +188,11 @@ impl Scenario for C10 {
                     2 => vec![kind.block_words() as u64, 1, 0, 1],      // across one block
                     3 => vec![1, 2, 2, 1],                              // next_u64 vs two next_u32
                     4 => vec![1, 3, 2, 4],                              // fill(8) vs two fill(4)
-                    _ => vec![rng.range(0, 3), rng.range(1, 7), rng.range(0, 3), rng.range(1, 7)],
+                    5 if rng.chance(1, 2) => {
+                        // one bulk fill vs the same number of words drawn one by one
+                        if rng.chance(1, 2) { vec![1, 9, 50, 1] } else { vec![1, 8, 18, 1] }
+                    }
+                    _ => vec![rng.range(0, 3), rng.range(1, 9), rng.range(0, 3), rng.range(1, 9)],
                 };
             }
             12 => {
